@@ -240,10 +240,10 @@ def guarded_division(chk, cid, prog, p, cfgname):
                                 'guard threshold the ratio is about guard/denominator, so BERR exceeds one (a componentwise relative backward '
                                 'error never does) for a solution that may be exact' % (pretty(x)[:90], nsc or 'nothing', dsc or 'nothing'),
                                 cfgname=cfgname)
-            if len(dterms) > 1 and dref:
-                n[0] += 1      # the denominator carries a positive guard term: it cannot be zero
-                chk.ok(cid, '%s:denominator-nonzero@%d' % (f.name, n[0]), sample=pretty(x)[:80])
-            elif dv.k == 'Index' and root_ref(dv) is not None and root_ref(dv).a.get('name') == 'rwork':
+            if dref:
+                # a row whose |op(A)||x|+|b| is exactly zero has an exactly zero residual and must not contribute: with the guard term in the
+                # denominator the ratio would be safe1/safe1 = 1 instead of a division by zero, which is just as wrong for BERR
+                dv = strip(dref[0])
                 n[0] += 1
                 d = canon(dv)
                 key = '%s:denominator-nonzero@%d' % (f.name, n[0])
